@@ -100,7 +100,8 @@ RULES = {
            "one file/entry actually changes; distinct by (index, working tree, arguments).",
     "C10": "Exhaustive: every sequence over the alphabet {branch/-d/-r/switch/switch -c x 3 names, update-ref x 3 names "
            "x 2 commits, commit, reset, switch main, branch -d main} up to the depth bound from 3 start states (node "
-           "count reported); random: rapid sequences. Non-trivial = sequence with >= 2 mutating operation kinds and "
+           "count reported); random: rapid sequences; API layer: one long-lived Refs object, with bulk creation of 255-513 branches "
+           "followed by a fresh reader. Non-trivial = sequence with >= 2 mutating operation kinds and "
            ">= 1 refusal; distinct by sequence hash.",
     "C11": "Scenario machine (profile journal). Non-trivial = journal with >= 3 entries of >= 2 kinds, or a hostile "
            "message, or a rename; distinct by (kind sequence, message class, rename).",
@@ -127,7 +128,8 @@ RULES = {
            "construction; distinct by (sub-command, flags, argument classes, state class).",
     "C19": "Mutations: for each valid file (blob, trees, commit with parent, index with 4 entries, HEAD, branch, config, "
            "reflog with 4 records) every truncation and, at every (quick: every 3rd) position, deletion and 6 substitutions; "
-           "objects at compressed and content level; all ordered pairs of swapped object files. Random: arbitrary bytes, "
+           "objects at compressed and content level; all ordered pairs of swapped object files (the zero-length blob among them); staging-area files whose entry k names "
+           "a path outside the working tree (/dev/zero, ../../dev/zero, ...), commands run under an address-space limit. Random: arbitrary bytes, "
            "hostile constants, splices of valid files, line garbage, compressed garbage; a reflog of arbitrary lines (one up to "
            "3 MiB) followed by genuine records, whose positions must not move. Rehash: the content of every commit and tree "
            "of a small history damaged (line deleted / repeated, truncated, bytes replaced), stored under its own new id and "
